@@ -72,6 +72,15 @@ def _local(node):
         n = copy.deepcopy(node)
         n["ch"]["c"] = copy.deepcopy(ch[keys[0]])
         out.append((t + ".extra-member", n))
+        if len(keys) >= 2 and S.key(ch[keys[0]]) != S.key(ch[keys[-1]]):
+            # the first and the last member exchanged between their keys, declared in the opposite order (so that the
+            # two lists of children line up position by position)
+            n = copy.deepcopy(node)
+            items = list(ch.items())
+            first, last = items[0], items[-1]
+            n["ch"] = dict([(last[0], copy.deepcopy(first[1]))] + [(k, copy.deepcopy(v)) for k, v in items[1:-1]] +
+                           [(first[0], copy.deepcopy(last[1]))])
+            out.append((t + ".children-exchanged", n))
     elif t in ("Index", "Branch"):
         n = copy.deepcopy(node)
         n["ch"] = list(n["ch"]) + [copy.deepcopy(n["ch"][0])]
